@@ -548,15 +548,20 @@ package moss
 // Ghost state for the reclamation legs of C06/C07/C15: the file most recently
 // scheduled for removal (set, by assumption, only by removeFileOnClose).
 //@ ghost var doomed *FileRef
+// Ghost: the count of the file a round writes to, right after the round took
+// its own count on it (startFileLOCKED / startOrReuseFile).
+//@ ghost var acquiredRefs int
 
 //@ func (s *Store) startFileLOCKED() (*FileRef, File, error)
 //@   props C18 C06 C07 C15
 //@   attr obligations call-requires ensures
-//@   attr only-labels footerKept notReadOnly readOnlyFlag fresh doomedKept nilOnErr
+//@   attr only-labels footerKept notReadOnly readOnlyFlag fresh doomedKept nilOnErr one
 //@   requires @notReadOnly !readOnlyMode()
 //@   modifies *
 //@   ensures @footerKept s.footer == old(s.footer)
 //@   ensures @fresh r2 == nil ==> r0 != nil && fresh(r0)
+//@   ensures @one r2 == nil ==> r0.refs == 1
+//@   ensures @assume_acquired r2 == nil ==> acquiredRefs == r0.refs
 //@   ensures @nilOnErr r2 != nil ==> r0 == nil
 //@   ensures @doomedKept doomed == old(doomed)
 
@@ -569,14 +574,18 @@ package moss
 //@   ensures @footerKept s.footer == old(s.footer)
 //@   ensures @doomedKept doomed == old(doomed)
 //@   ensures @nilOnErr err != nil ==> fref == nil
+//@   ensures @assume_acquired err == nil ==> acquiredRefs == fref.refs
 
 //@ func (s *Store) removeFileOnClose(fref *FileRef) (os.FileInfo, error)
-//@   props C18 C06
+//@   props C18 C06 C15 C07
 //@   attr obligations call-requires ensures
-//@   attr only-labels footerKept notReadOnly readOnlyFlag
+//@   attr only-labels footerKept notReadOnly readOnlyFlag refsKept acquiredKept
 //@   requires @notReadOnly !readOnlyMode()
+//@   requires fref != nil
 //@   modifies *
 //@   ensures @footerKept s.footer == old(s.footer)
+//@   ensures @refsKept fref.refs == old(fref.refs)
+//@   ensures @acquiredKept acquiredRefs == old(acquiredRefs)
 //@   ensures @assume_doomed doomed == fref
 
 //@ func (s *Store) removeFileOnClose$1()
@@ -617,22 +626,27 @@ package moss
 //@ func (s *Store) compact(footer *Footer, partialCompactStart int, higher Snapshot, persistOptions StorePersistOptions) error
 //@   props C18 C06 C07 C15 C04 C05 C11 C12 C08
 //@   attr obligations call-requires ensures
-//@   attr only-labels unpublished notReadOnly readOnlyFlag liveKept cleanup wholeFooterWritten
+//@   attr only-labels unpublished notReadOnly readOnlyFlag liveKept cleanup wholeFooterWritten fileCountReleased doomedKeptOnSuccess
 //@   requires @notReadOnly !readOnlyMode()
 //@   modifies *
 //@   ensures @unpublished result != nil ==> s.footer == old(s.footer)
 //@   ensures @liveKept result != nil ==> doomed == old(doomed) || fresh(doomed)
 //@   ensures @cleanup result != nil && partialCompactStart == 0 && local(frefCompact) != nil ==> doomed == local(frefCompact)
 //@   ensures @wholeFooterWritten result == nil ==> persistedLocs == len(s.footer.SegmentLocs)
+//@   ensures @doomedKeptOnSuccess result == nil ==> doomed == old(doomed)
+//@   return 5: @fileCountReleased local(frefCompact) != nil ==> local(frefCompact).refs == acquiredRefs - 1
+//@   return 6: @fileCountReleased local(frefCompact) != nil ==> local(frefCompact).refs == acquiredRefs - 1
+//@   return 7: @fileCountReleased local(frefCompact) != nil ==> local(frefCompact).refs == acquiredRefs - 1
 
 //@ func (s *Store) compactMaybe(higher Snapshot, persistOptions StorePersistOptions) (bool, error)
 //@   dead footer, err := s.snapshot()
 //@   props C18 C06 C04 C05 C07 C11 C12 C15 C08
 //@   attr obligations call-requires ensures
-//@   attr only-labels unpublished notReadOnly readOnlyFlag modeLinked
+//@   attr only-labels unpublished notReadOnly readOnlyFlag modeLinked reclaimed
 //@   requires @modeLinked s != nil && s.options != nil && readOnlyMode() == s.options.CollectionOptions.ReadOnly
 //@   modifies *
 //@   ensures @unpublished r1 != nil || !r0 ==> s.footer == old(s.footer)
+//@   return 7: @reclaimed local(partialCompactStart) == 0 && local(sizeBefore) > 0 ==> doomed != nil
 
 // Reference accounting of a persistence round, path by path (C15, C02): the
 // footer of the round starts with one count; when writing it fails that count
@@ -1529,7 +1543,7 @@ package moss
 //@ func (m *collection) appendChildStacks(dst, src *segmentStack) *segmentStack
 //@   props C01 C02 C03 C13 C11
 //@   attr obligations ensures inv-entry inv-preserve
-//@   attr only-labels same nilsrc appended
+//@   attr only-labels same nilsrc appended filtered
 //@   requires m != nil && dst != nil && (src != nil ==> before(src, dst))
 //@   requires @young forall c string :: has(dst.childSegStacks, c) ==> before(dst, dst.childSegStacks[c])
 //@   modifies heap(segmentStack.a), heap(segmentStack.childSegStacks), elems(dst.a)
@@ -1538,14 +1552,19 @@ package moss
 //@   ensures @appended src != nil ==> len(dst.a) == old(len(dst.a)) + len(src.a) &&
 //@       (forall i int :: 0 <= i && i < old(len(dst.a)) ==> segIfc(dst, i) == old(segIfc(dst, i))) &&
 //@       (forall j int :: 0 <= j && j < len(src.a) ==> segIfc(dst, old(len(dst.a)) + j) == old(segIfc(src, j)))
+//@   ensures @filtered src != nil ==> (forall c string :: has(src.childSegStacks, c) && (!has(m.childCollections, c) || m.childCollections[c].incarNum != src.childSegStacks[c].incarNum) ==>
+//@       has(dst.childSegStacks, c) == old(has(dst.childSegStacks, c)) && (has(dst.childSegStacks, c) ==> dst.childSegStacks[c] == old(dst.childSegStacks[c])))
 //@   ensures @assume_othersKept forall s *segmentStack :: before(s, dst) ==> s.a == old(s.a) && s.childSegStacks == old(s.childSegStacks) &&
 //@       (forall i int :: 0 <= i && i < len(s.a) ==> segIfc(s, i) == old(segIfc(s, i)))
 //@   ensures @assume_youngKept forall c string :: has(dst.childSegStacks, c) ==> before(dst, dst.childSegStacks[c])
-//@   loop 1: modifies heap(segmentStack.a), heap(segmentStack.childSegStacks), elems(dst.a)
+//@   loop 1: modifies heap(segmentStack.a), heap(segmentStack.childSegStacks), elems(dst.a), contents(dst.childSegStacks)
 //@   loop 1: invariant src != nil && dst != nil && before(src, dst) && len(dst.a) == old(len(dst.a)) + len(src.a) && len(src.a) == old(len(src.a))
+//@   loop 1: invariant src.childSegStacks == old(src.childSegStacks)
 //@   loop 1: invariant forall i int :: 0 <= i && i < old(len(dst.a)) ==> segIfc(dst, i) == old(segIfc(dst, i))
 //@   loop 1: invariant forall j int :: 0 <= j && j < len(src.a) ==> segIfc(dst, old(len(dst.a)) + j) == old(segIfc(src, j))
 //@   loop 1: invariant forall c string :: has(dst.childSegStacks, c) ==> before(dst, dst.childSegStacks[c])
+//@   loop 1: invariant @filtered forall c string :: has(src.childSegStacks, c) && (!has(m.childCollections, c) || m.childCollections[c].incarNum != src.childSegStacks[c].incarNum) ==>
+//@       has(dst.childSegStacks, c) == old(has(dst.childSegStacks, c)) && (has(dst.childSegStacks, c) ==> dst.childSegStacks[c] == old(dst.childSegStacks[c]))
 
 // What a section contributes to a snapshot: its segments unless it is absent or skipped.
 //@ pure func secLen(ss *segmentStack, skipped bool) int = ite(ss != nil && !skipped, len(ss.a), 0)
